@@ -387,6 +387,25 @@ def reproduce(ctx, net, ac, desc, Fg):
                 d = float("inf")
             if d > worst:
                 worst, what = d, "%s.%s differs by %.3g" % (tab, col, d * tol)
+    if ac:
+        # reactive power fed in by the voltage-controlling elements, per bus (the split between several of them at one bus
+        # is not unique, their sum is)
+        def qsum(n):
+            s = {}
+            for t in ("gen", "ext_grid"):
+                for i in n[t].index:
+                    if bool(n[t].in_service.at[i]):
+                        s[int(n[t].bus.at[i])] = s.get(int(n[t].bus.at[i]), 0.0) + float(n["res_" + t].q_mvar.at[i])
+            for i in n.dcline.index:
+                if bool(n.dcline.in_service.at[i]):
+                    s[int(n.dcline.from_bus.at[i])] = s.get(int(n.dcline.from_bus.at[i]), 0.0) - float(n.res_dcline.q_from_mvar.at[i])
+                    s[int(n.dcline.to_bus.at[i])] = s.get(int(n.dcline.to_bus.at[i]), 0.0) - float(n.res_dcline.q_to_mvar.at[i])
+            return s
+        qa, qb = qsum(net), qsum(n2)
+        for b in qa:
+            d = abs(qa[b] - qb.get(b, float("nan"))) / tp
+            if not d <= worst:
+                worst, what = d, "reactive power of the voltage-controlling elements at bus %d: OPF %.4f Mvar, power flow %.4f Mvar" % (b, qa[b], qb.get(b, float("nan")))
     if worst > 1.0:
         kind = "spec"
         ctx.violation(kind, "power flow with the OPF dispatch as setpoints does not reproduce the OPF result: " + what, desc)
